@@ -1,4 +1,6 @@
 use crate::fw::*;
+pub mod c01;
+pub mod c01v;
 pub mod c02;
 pub mod c03;
 pub mod c04;
@@ -71,6 +73,7 @@ macro_rules! table {
 
 pub fn dispatch(ctx: &Ctx, replay: Option<&str>) -> i32 {
     table!(ctx, replay,
+        "C01" => c01,
         "C02" => c02,
         "C03" => c03,
         "C04" => c04,
